@@ -738,6 +738,13 @@ def run_process(program, rep, prefix='C09'):
         for attr, (i, e) in last.items():
             if not any(q in e.sym.text for q in (AQ, WQ)):
                 continue
+            vn = e.sym.node
+            if isinstance(vn, ast.Attribute) and vn.attr == 'generator':
+                vn = vn.value
+            if not (isinstance(vn, (ast.Subscript, ast.Call)) and any(
+                    (dotted(x) or '') in (AQ, WQ) for x in ast.walk(vn))) \
+                    or isinstance(vn, ast.Attribute):
+                continue        # a number read off a record, not the record
             dropped = [x for x in tr[i:] if x.kind == 'del' and x.target
                        is not None and x.target.text.startswith(G + '[')]
             if dropped and held is None:
@@ -970,3 +977,5 @@ def run(program, rep, tier):
         if o.rule == 'C08.sleep':
             o.rule = 'C09.spec'
             rep.obs.append(o)
+            if o.verdict == 'inconclusive':
+                rep.errors.append(f'{o.rule} at {o.site}: {o.why}')
